@@ -445,6 +445,10 @@ class XsiType(Family):
   </xs:sequence></xs:complexType>
   <xs:key name="k3"><xs:selector xpath=".//t:y"/><xs:field xpath="@v"/></xs:key>
  </xs:element>
+ <xs:simpleType name="integer"><xs:restriction base="xs:decimal"><xs:maxInclusive value="10"/></xs:restriction></xs:simpleType>
+ <xs:element name="root7">
+  <xs:complexType><xs:sequence><xs:element name="num" type="xs:decimal" maxOccurs="unbounded"/></xs:sequence></xs:complexType>
+ </xs:element>
 </xs:schema>'''}
 
     def _doc(self, root, xs, child='x'):
@@ -577,6 +581,20 @@ class XsiType(Family):
                 xs.append(x)
             root = rng.choice(['root1', 'root2'])
             out.append(Doc(f'xt-rand-{k}', D(root, xs)))
+        # one lexical xsi:type value, two namespaces behind its prefix (a local type named like a builtin)
+        r7 = '<t:root7 xmlns:t="urn:xt" xmlns:xsi="http://www.w3.org/2001/XMLSchema-instance"'
+        XSD_NS = 'http://www.w3.org/2001/XMLSchema'
+        out += [
+            Doc('xt-r7-p-local', _decl() + f'{r7} xmlns:p="urn:xt"><t:num xsi:type="p:integer">1.5</t:num><t:num>77</t:num></t:root7>\n'),
+            Doc('xt-r7-p-builtin', _decl() + f'{r7} xmlns:p="{XSD_NS}"><t:num xsi:type="p:integer">12</t:num><t:num>7.5</t:num></t:root7>\n'),
+            Doc('xt-r7-p-builtin-bad', _decl() + f'{r7} xmlns:p="{XSD_NS}"><t:num xsi:type="p:integer">1.5</t:num></t:root7>\n',
+                'fault:lexical'),
+            Doc('xt-r7-p-local-bad', _decl() + f'{r7} xmlns:p="urn:xt"><t:num xsi:type="p:integer">12</t:num></t:root7>\n',
+                'fault:lexical'),
+            Doc('xt-r7-p-rebound', _decl() + f'{r7}><t:num xmlns:p="urn:xt" xsi:type="p:integer">1.5</t:num>'
+                f'<t:num xmlns:p="{XSD_NS}" xsi:type="p:integer">12</t:num><t:num xmlns:p="urn:xt" xsi:type="p:integer">2.5</t:num>'
+                '</t:root7>\n'),
+        ]
         for d in out:
             d.prefix_dep = True   # xsi:type values are QNames
         return out
@@ -816,6 +834,7 @@ class Ns(Family):
     """Nested prefix redeclaration and default-namespace toggling; QName-typed content."""
     name = 'ns'
     paths = ('*',)
+    doc_ns_paths = ('node', 'a:node')   # resolved with the declarations of each document
 
     def sources(self, version):
         return {'ns.xsd': f'''<xs:schema {XS} targetNamespace="urn:n1" xmlns:a="urn:n1" xmlns:b="urn:n2"
@@ -824,6 +843,7 @@ class Ns(Family):
  <xs:element name="root">
   <xs:complexType><xs:sequence>
     <xs:element name="node" type="a:Node" minOccurs="0" maxOccurs="unbounded"/>
+    <xs:element name="node" form="unqualified" type="xs:int" minOccurs="0" maxOccurs="unbounded"/>
   </xs:sequence></xs:complexType>
  </xs:element>
  <xs:complexType name="Node"><xs:sequence>
@@ -893,6 +913,22 @@ class Ns(Family):
                        '<a:node q="p:late"/></a:node></a:root>', 'fault:lexical', True))
         out.append(Doc('ns-wrong-ns-child', _decl() + '<a:root xmlns:a="urn:n1"><a:node><a:leaf/></a:node></a:root>',
                        'fault:structure'))
+        # namespaces declared only below the children of the root (inside the chunks of a lazy resource)
+        out.append(Doc('ns-deep-decl', _decl() + '<a:root xmlns:a="urn:n1"><a:node><a:node xmlns:d2="urn:deep2" q="d2:v">'
+                       '<a:node xmlns:d3="urn:deep3" q="d3:v"><a:qn>d2:w</a:qn></a:node></a:node></a:node>'
+                       '<a:node xmlns:d1="urn:deep1" q="d1:v"/></a:root>', prefix_dep=True))
+        # the same names under other bindings: the prefix of the schema bound to the other namespace, the target
+        # namespace as default (a path given without a namespace map reads the document's declarations)
+        out.append(Doc('ns-a-is-n2', _decl() + '<x:root xmlns:x="urn:n1" xmlns:a="urn:n2"><x:node q="a:v"><a:leaf>t</a:leaf>'
+                       '</x:node></x:root>', prefix_dep=True))
+        out.append(Doc('ns-default-flat', _decl() + '<root xmlns="urn:n1"><node/><node><qn>node</qn></node><node xmlns="">5</node>'
+                       '</root>', prefix_dep=True))
+        out.append(Doc('ns-prefixed-flat', _decl() + '<a:root xmlns:a="urn:n1"><a:node/><node>6</node><node>7</node></a:root>',
+                       prefix_dep=True))
+        out.append(Doc('ns-default-flat-bad', _decl() + '<root xmlns="urn:n1"><node/><node xmlns="">five</node><node xmlns="">5</node>'
+                       '</root>', 'fault:lexical', True))
+        out.append(Doc('ns-prefixed-flat-bad', _decl() + '<a:root xmlns:a="urn:n1"><a:node/><node>six</node></a:root>',
+                       'fault:lexical', True))
         return out
 
 
@@ -966,6 +1002,7 @@ class Assert11(Family):
      <xs:alternative type="AnyRow"/>
     </xs:element>
     <xs:element name="sc" type="SC" minOccurs="0" maxOccurs="unbounded"/>
+    <xs:element name="qn" type="QN" minOccurs="0" maxOccurs="unbounded"/>
    </xs:sequence>
    <xs:attribute name="total" type="xs:int" inheritable="true"/>
    <xs:assert test="count(row) le 40"/>
@@ -984,6 +1021,9 @@ class Assert11(Family):
    <xs:attribute name="s" use="required"><xs:simpleType><xs:restriction base="xs:string">
      <xs:assertion test="string-length($value) mod 2 = 0"/></xs:restriction></xs:simpleType></xs:attribute>
    </xs:extension></xs:complexContent></xs:complexType>
+ <xs:complexType name="QN"><xs:sequence><xs:element name="qn" type="QN" minOccurs="0" maxOccurs="unbounded"/></xs:sequence>
+   <xs:attribute name="kind" type="xs:string" use="required"/>
+   <xs:assert test="namespace-uri-from-QName(resolve-QName(string(@kind), .)) = 'urn:k'"/></xs:complexType>
 </xs:schema>'''}
 
     def _doc(self, rows, total='3'):
@@ -1012,6 +1052,15 @@ class Assert11(Family):
                        tag='root-assert-on-grandchildren'))
         out.append(Doc('a11-bad-deep', self._doc(['<row deep="1"/>', good[2]]), 'fault:assert', tag='root-assert-on-grandchildren'))
         out.append(Doc('a11-sc-bad-then-empty', self._doc([good[0], '<sc>abcdef</sc>', '<sc/>']), 'fault:assert'))
+        # assertions that read the in-scope namespaces of the element: prefixes declared on the element itself, on a
+        # child of the root, deeper, and rebound
+        out.append(Doc('a11-qn-valid', self._doc([good[0], '<qn xmlns:k="urn:k" kind="k:a"/>',
+                                                  '<qn xmlns:k2="urn:k" kind="k2:b"><qn kind="k2:c"/><qn xmlns:k3="urn:k" kind="k3:d">'
+                                                  '<qn kind="k3:e"/></qn></qn>']), prefix_dep=True))
+        out.append(Doc('a11-qn-rebound', self._doc([good[0], '<qn xmlns:k="urn:k" kind="k:a"><qn xmlns:k="urn:other" kind="k:b"/>'
+                                                    '<qn kind="k:c"/></qn>']), 'fault:assert', prefix_dep=True))
+        out.append(Doc('a11-qn-unbound', self._doc([good[0], '<qn xmlns:k="urn:k" kind="k:a"/>', '<qn kind="k:late"/>']),
+                       'fault:assert', prefix_dep=True))
         return out
 
 
@@ -1197,6 +1246,9 @@ class Shadow(Family):
      <xs:element name="code" type="xs:string" maxOccurs="unbounded"/></xs:sequence></xs:complexType></xs:element>
   </xs:sequence></xs:complexType>
  </xs:element>
+ <xs:element name="bag"><xs:complexType><xs:sequence>
+   <xs:element name="code" type="xs:string"/>
+   <xs:any processContents="lax" minOccurs="0" maxOccurs="unbounded"/></xs:sequence></xs:complexType></xs:element>
 </xs:schema>'''}
 
     def docs(self, rng):
@@ -1216,13 +1268,19 @@ class Shadow(Family):
                 '<code>12</code></crate><crate><code>z</code></crate></root>'),
             Doc('sh-bad-crate-box', _decl() + '<root><code>x</code><box><code>tomorrow</code></box><crate><code>2020-01-01</code>'
                 '</crate></root>', 'fault:lexical'),
+            # a wildcard-matched child resolved to a global declaration that is not consistent with the local one of
+            # the same name: reported by every validation, not only by the first that meets the couple
+            Doc('sh-bag-valid', _decl() + '<bag><code>x</code><box><code>2020-01-01</code></box><self><self>1</self></self></bag>'),
+            Doc('sh-bag-edc', _decl() + '<bag><code>x</code><code>12</code></bag>', 'fault:structure'),
+            Doc('sh-bag-edc2', _decl() + '<bag><code>y</code><box><code>2020-01-01</code></box><code>7</code><code>8</code></bag>',
+                'fault:structure'),
         ]
 
 
 class IdFields(Family):
     """Identity fields of date / duration / list types and a key reference whose key scope is optional."""
     name = 'idfields'
-    paths = ('sec', 'ref')
+    paths = ('sec', 'ref', 'blk')
 
     def sources(self, version):
         return {'idfields.xsd': f'''<xs:schema {XS}>
@@ -1248,6 +1306,27 @@ class IdFields(Family):
    </xs:element>
   </xs:sequence></xs:complexType>
   <xs:keyref name="R" refer="K"><xs:selector xpath="ref"/><xs:field xpath="@to"/></xs:keyref>
+ </xs:element>
+ <xs:element name="rr">
+  <xs:complexType><xs:sequence>
+   <xs:element name="blk" maxOccurs="unbounded">
+    <xs:complexType><xs:sequence>
+     <xs:element name="tab" minOccurs="0">
+      <xs:complexType><xs:sequence><xs:element name="it" maxOccurs="unbounded">
+        <xs:complexType><xs:attribute name="k" type="xs:int" use="required"/></xs:complexType></xs:element>
+      </xs:sequence></xs:complexType>
+      <xs:key name="KT"><xs:selector xpath="it"/><xs:field xpath="@k"/></xs:key>
+     </xs:element>
+     <xs:element name="ref" minOccurs="0" maxOccurs="unbounded">
+      <xs:complexType><xs:attribute name="to" type="xs:int" use="required"/></xs:complexType>
+     </xs:element>
+    </xs:sequence>
+    <xs:attribute name="id" type="xs:int" use="required"/><xs:attribute name="up" type="xs:int"/></xs:complexType>
+    <xs:keyref name="RT" refer="KT"><xs:selector xpath="ref"/><xs:field xpath="@to"/></xs:keyref>
+   </xs:element>
+  </xs:sequence><xs:attribute name="id" type="xs:int" use="required"/></xs:complexType>
+  <xs:key name="KS"><xs:selector xpath=".|blk"/><xs:field xpath="@id"/></xs:key>
+  <xs:keyref name="RS" refer="KS"><xs:selector xpath="blk"/><xs:field xpath="@up"/></xs:keyref>
  </xs:element>
 </xs:schema>'''}
 
@@ -1276,6 +1355,17 @@ class IdFields(Family):
             Doc('if-hugeyear-field', D([[{'k': 1, 'd': '99999999999-01-01'}, {'k': 2, 'd': '2020-01-01'}]]), 'fault:lexical'),
             Doc('if-hugeduration-field', D([[{'k': 1, 'u': 'P99999999999999Y'}, {'k': 2, 'u': 'P1Y'}]]), 'fault:lexical'),
             Doc('if-baddate-field', D([[{'k': 1, 'd': '2020-02-30'}, {'k': 2, 'd': '2020-02-30'}]]), 'fault:lexical'),
+            # a key on the root that selects the root itself, referred by the children; a key reference on a repeated
+            # element whose key is declared on an optional descendant
+            Doc('if-rr-valid', _decl() + '<rr id="1"><blk id="2" up="1"><tab><it k="1"/><it k="2"/></tab><ref to="2"/></blk>'
+                '<blk id="3" up="2"/><blk id="4" up="1"><tab><it k="9"/></tab></blk></rr>'),
+            Doc('if-rr-ref-before-tab', _decl() + '<rr id="1"><blk id="2"><ref to="5"/></blk><blk id="3"><tab><it k="5"/></tab>'
+                '<ref to="5"/></blk></rr>', 'fault:keyref'),
+            Doc('if-rr-ref-notab', _decl() + '<rr id="1"><blk id="2"><ref to="5"/></blk></rr>', 'fault:keyref'),
+            Doc('if-rr-dup-root-id', _decl() + '<rr id="2"><blk id="2"/></rr>', 'fault:dup-key'),
+            Doc('if-rr-up-dangling', _decl() + '<rr id="1"><blk id="2" up="9"/><blk id="3" up="3"/></rr>', 'fault:keyref'),
+            Doc('if-rr-up-root-only', _decl() + '<rr id="7"><blk id="2" up="7"/><blk id="3" up="7"><ref to="1"/></blk></rr>',
+                'fault:keyref'),
         ]
 
 
